@@ -239,6 +239,7 @@ class Program:
         root = os.path.join(self.repo, PKG)
         if not os.path.isdir(root):
             raise AnalysisError("package directory %s missing" % root)
+        loaded = []
         for dirpath, dirnames, filenames in os.walk(root):
             dirnames[:] = sorted(d for d in dirnames if d != "__pycache__")
             for fn in sorted(filenames):
@@ -252,6 +253,15 @@ class Program:
                     mod = Module(rel, src)
                 except SyntaxError as exc:
                     raise AnalysisError("%s does not parse: %s" % (rel, exc))
+                loaded.append((rel, mod))
+        if self.inline:
+            # normalisation -1: new optional parameters (not in the pinned signatures) are analysed at their default
+            from .newoptions import specialise
+            rep = specialise({rel: mod.tree for rel, mod in loaded})
+            for rel, items in rep.items():
+                self.inlined.setdefault(rel, {})["new_options_at_default"] = items
+        for rel, mod in loaded:
+            if True:
                 if self.inline:
                     from .inline import inline_module, propagate_aliases
                     from .renames import restore_names
